@@ -117,22 +117,31 @@ Theorem C18_stream_ok : forall c m src ts n, tokens c m src = Some (ts, n) -> st
 Proof. exact tokens_stream_ok. Qed.
 Print Assumptions C18_stream_ok.
 
-(* ---- a defect the model reproduces: code points that equal goyacc token numbers ---------------- *)
-(* a rune no case of Scan recognises is returned with token number = code point ... *)
-Theorem C18_default_token_is_code_point : forall c m h r ln cl ch,
+(* ---- stray characters: code points that equal goyacc token numbers ------------------------------- *)
+(* a rune no case of Scan recognises is returned with token number = code point, except that a code point
+   in the range of the grammar's own token numbers (a private use area) becomes UnknownCharacter
+   (finding print-reparse:token-number-code-point, repaired in /repo: before, U+E00B alone was an
+   ENVIRONMENT_VARIABLE token) *)
+Theorem C18_default_token : forall c m h r ln cl ch,
   is_space ch = false ->
   (ch =? 63) = false -> (ch =? 58) = false -> is_decimal ch = false -> is_ident_rune c ch = false ->
   is_operator_rune ch = false -> (ch =? 64) = false -> (ch =? 36) = false -> (ch =? 47) = false ->
   (ch =? 45) = false -> (ch =? 39) = false -> (ch =? 34) = false -> (ch =? 96) = false ->
-  scan_body c m h (mkP (ch :: r) ln cl) = BTok (mkTok (Z.of_N ch) [ch] false 0 ln (cl + 1) None) h (mkP r ln (cl + 1)).
-Proof. exact default_token_is_code_point. Qed.
+  scan_body c m h (mkP (ch :: r) ln cl)
+  = BTok (mkTok (if is_token_number c ch then k_unknown_char else Z.of_N ch) [ch] false 0 ln (cl + 1) None) h (mkP r ln (cl + 1)).
+Proof. exact default_token. Qed.
 
-(* ... so the statement that an ENVIRONMENT_VARIABLE token comes from an @% in the text is false: U+E00B (= 57355, the
-   number goyacc gave ENVIRONMENT_VARIABLE) alone is such a token.  parser.Parse accepts it and prints
-   it as @% followed by the rune, which does not parse (finding print-reparse:token-number-code-point) *)
-Theorem C18_envvar_token_has_sigil_refuted : ~ envvar_token_has_sigil cfg0.
-Proof. exact envvar_token_has_sigil_fails. Qed.
-Print Assumptions C18_envvar_token_has_sigil_refuted.
+(* ... and that kind is never a number of a grammar token *)
+Theorem C18_default_token_kind_not_a_token_number : forall c ch,
+  let k := if is_token_number c ch then k_unknown_char else Z.of_N ch in
+  (snd (c_private c) <= 1056768)%N -> (fst (c_private c) <= 57344)%N ->
+  ~ (Z.of_N (fst (c_private c)) <= k < Z.of_N (fst (c_private c) + snd (c_private c)))%Z.
+Proof. exact default_token_kind_not_a_token_number. Qed.
+Print Assumptions C18_default_token_kind_not_a_token_number.
+
+Example C18_example_token_number_char :
+  tokens cfg0 modes0 [57355] = Some ([mkTok k_unknown_char [57355] false 0 1 1 None; mkTok k_eof [65533] false 0 1 1 None], 0%N).
+Proof. exact example_token_number_char. Qed.
 
 (* ---- non-vacuity ----------------------------------------------------------------------------------- *)
 (* SELECT 'a\'b' <LF> --x <CR><LF> @v  : keyword, string with an escaped mark, line comment, CR LF, variable *)
